@@ -132,6 +132,7 @@ package binary
 //@   ensures(stop) err == nil ==> (ok <==> rin(sr.reader)[p0] != 0)
 //@   ensures(stoppos) err == nil && !ok ==> rpos(sr.reader) == p0 + 1
 //@   ensures(hdr) err == nil && ok ==> rpos(sr.reader) == p0 + 3 && fh.Type == int8(rin(sr.reader)[p0]) && fh.ID == int16(be16at(rin(sr.reader), p0 + 1))
+//@   ensures(inrange) err == nil ==> rpos(sr.reader) <= rlen(sr.reader)
 //@   ensures(mono) rpos(sr.reader) >= p0
 //@   ensures(complete) p0 + 1 <= rlen(sr.reader) && (rin(sr.reader)[p0] == 0 || p0 + 3 <= rlen(sr.reader)) ==> err == nil
 //@   ensures(valid) validSR(sr)
@@ -226,6 +227,8 @@ package binary
 //@   loop 1: invariant fieldType == int8(rin(sr.reader)[rpos(sr.reader) - 1])
 //@   loop 1: invariant fieldsEnd(rin(sr.reader), rpos(sr.reader) - 1) == fieldsEnd(rin(sr.reader), p0)
 //@   loop 1: use unfoldFields(rin(sr.reader), rpos(sr.reader) - 1)
+//@   loop 1: invariant(inrange) rpos(sr.reader) <= rlen(sr.reader)
+//@   loop 1: decreases rlen(sr.reader) - rpos(sr.reader)
 //@   ensures(end) err == nil ==> rpos(sr.reader) == fieldsEnd(rin(sr.reader), p0)
 //@   ensures(mono) rpos(sr.reader) >= p0
 //@   ensures(valid) validSR(sr)
